@@ -43,13 +43,14 @@ func init() {
 	})
 	register(&Property{
 		ID: "C50",
-		Explanation: "Decides the usage discipline around displayed locations, not the URL rewriting itself: (location-taint) a forward taint analysis over the whole module (flow- and context-insensitive; through phis, conversions, concatenation, strings/fmt.Sprint*/url helpers, local variables, captured variables, struct fields, varargs, parameters of module functions and their results) starting at every load of global.Options.Repo, SecondaryRepoOptions.Repo/LegacyRepo and at the content of the repository file finds no tainted argument of fmt.Print*/Fprint*/Errorf, log.*, debug.Log, the error constructors of internal/errors and pkg/errors, a method of the internal/ui printers and terminals, and no tainted store into a JSON-tagged struct field; the only way out is location.StripPassword; (strip-registered) every backend factory registration is classified: a backend whose package takes a password out of its URL (Userinfo.Password / url.UserPassword) must register a strip function other than location.NoPassword (rest), location.StripPassword returns its input unchanged only when no factory knows the scheme and otherwise returns factory.StripPassword(s). Not decided: that rest.StripPassword removes the password from every URL url.Parse accepts, locations shown by backends from their parsed Config (after location.Parse), and text that the operating system or libraries echo.",
+		Explanation: "Decides the usage discipline around displayed locations, not the URL rewriting itself: (location-taint) a forward taint analysis over the whole module (flow- and context-insensitive; through phis, conversions, concatenation, strings/fmt.Sprint*/url helpers, local variables, captured variables, struct fields, varargs, parameters of module functions and their results) starting at every load of global.Options.Repo, SecondaryRepoOptions.Repo/LegacyRepo and at the content of the repository file finds no tainted argument of fmt.Print*/Fprint*/Errorf, log.*, debug.Log, the error constructors of internal/errors and pkg/errors, a method of the internal/ui printers and terminals, and no tainted store into a JSON-tagged struct field; the only way out is location.StripPassword; (strip-registered) every backend factory registration is classified: a backend whose package takes a password out of its URL (Userinfo.Password / url.UserPassword) must register a strip function other than location.NoPassword (rest), location.StripPassword returns its input unchanged only when no factory knows the scheme and otherwise returns factory.StripPassword(s). (rest-strip-shape) rest.StripPassword returns its input unchanged only when url.Parse fails (such a location is rejected by restic) or no password is set, and otherwise replaces, in u.String(), the user info exactly as that string spells it (Userinfo.String(), escaped) by text not built from the password — added after a seeded change that searched for the decoded user:password and so missed every password containing an escaped character. Not decided: url.URL's own escaping rules, locations shown by backends from their parsed Config (after location.Parse), and text that the operating system or libraries echo.",
 		Assumptions: commonAssumptions,
 		Technique:   "static analysis: interprocedural forward taint propagation over SSA values, fields and parameters with a sanitiser and an enumerated sink set (go/ssa)",
 		AllConfigs:  true,
 		Run: func(c *eng.Ctx) {
 			ruleLocationTaint(c)
 			ruleStripRegistered(c)
+			ruleRestStripShape(c)
 		},
 		Controls: []Control{
 			{Name: "init-prints-raw-location", File: "cmd/restic/cmd_init.go",
@@ -58,6 +59,8 @@ func init() {
 				Old: "		return nil, errors.Fatalf(\"unable to open repository at %v: %v\", location.StripPassword(gopts.Backends, s), err)", New: "		return nil, errors.Fatalf(\"unable to open repository at %v: %v\", s, err)", Rule: "location-taint"},
 			{Name: "init-json-raw-location", File: "cmd/restic/cmd_init.go",
 				Old: "			Repository:  location.StripPassword(gopts.Backends, gopts.Repo),", New: "			Repository:  gopts.Repo,", Rule: "location-taint"},
+			{Name: "rest-strip-searches-decoded-userinfo", File: "internal/backend/rest/config.go",
+				Old: "strings.Replace(u.String(), u.User.String()+\"@\", u.User.Username()+\":***@\", 1)", New: "strings.Replace(u.String(), u.User.Username()+\":\"+func() string { p, _ := u.User.Password(); return p }()+\"@\", u.User.Username()+\":***@\", 1)", Rule: "rest-strip-shape"},
 			{Name: "rest-registers-identity-strip", File: "internal/backend/rest/rest.go",
 				Old: "	return location.NewHTTPBackendFactory(\"rest\", ParseConfig, StripPassword, Create, Open)", New: "	return location.NewHTTPBackendFactory(\"rest\", ParseConfig, location.NoPassword, Create, Open)", Rule: "strip-registered"},
 		},
